@@ -302,17 +302,20 @@ type c17Case struct {
 
 var errStop = errors.New("stop here")
 
-func c17RunOne(src string, rnd *Rand) (*c17Case, bool) {
+func c17Parse(src string) (*c17Case, anko.Stmt, map[interface{}]int, bool) {
 	stmt, err := parser.ParseSrc(src)
 	if err != nil || stmt == nil {
-		return nil, false
+		return nil, nil, nil, false
 	}
 	ids := map[interface{}]int{}
 	tree := buildTree(stmt, ids)
 	if tree == nil {
-		return nil, false
+		return nil, nil, nil, false
 	}
-	c := &c17Case{Src: src, tree: tree, Nodes: tree.count(), Distinct: len(ids), FailAt: -1}
+	return &c17Case{Src: src, tree: tree, Nodes: tree.count(), Distinct: len(ids), FailAt: -1}, stmt, ids, true
+}
+
+func c17Walk(c *c17Case, stmt anko.Stmt, ids map[interface{}]int, rnd *Rand) {
 	werr := astutil.Walk(stmt, func(x interface{}) error {
 		if id, ok := ids[x]; ok {
 			c.Seq = append(c.Seq, id)
@@ -337,7 +340,6 @@ func c17RunOne(src string, rnd *Rand) (*c17Case, bool) {
 		c.Presented = n
 		c.ErrIsOurs = ferr == errStop
 	}
-	return c, true
 }
 
 func c17Main(seed uint64, n int, outDir, repo string) error {
@@ -362,21 +364,6 @@ func c17Main(seed uint64, n int, outDir, repo string) error {
 			}
 		}
 	}
-	var missing []string
-	for name := range srcKinds {
-		if !have[name] {
-			missing = append(missing, name)
-		}
-	}
-	sort.Strings(missing)
-	table := probeWalkTable()
-	if err := os.MkdirAll(filepath.Join(outDir, "AnkoGen"), 0o755); err != nil {
-		return err
-	}
-	if err := os.WriteFile(filepath.Join(outDir, "AnkoGen", "GenWalk.v"), []byte(walkTableCoq(table)), 0o644); err != nil {
-		return err
-	}
-	tsx := walkTableSx(table)
 	rnd := NewRand(seed, "c17")
 	var cases []*c17Case
 	kinds := map[string]int{}
@@ -392,13 +379,19 @@ func c17Main(seed uint64, n int, outDir, repo string) error {
 		"if a { b } else if c { d } else { e }", "for k, v in m { k }", "var a, b = 1, 2", "a, b = b, a", "x++; y += 2",
 		"a ? b : c", "1 in [1]", "!a; -b; ^c; &d; *e", "new(int64); make([]int64, 1, 2)", "import(\"strings\")",
 	}
+	type parsed struct {
+		stmt anko.Stmt
+		ids  map[interface{}]int
+	}
+	var parsedCases []parsed
 	add := func(src string) {
-		c, ok := c17RunOne(src, rnd)
+		c, stmt, ids, ok := c17Parse(src)
 		if !ok {
 			parseFail++
 			return
 		}
 		cases = append(cases, c)
+		parsedCases = append(parsedCases, parsed{stmt, ids})
 		if !seen[src] && c.Nodes >= 4 {
 			distinct++
 		}
@@ -413,6 +406,32 @@ func c17Main(seed uint64, n int, outDir, repo string) error {
 	}
 	for k, v := range g.kinds {
 		kinds[k] = v
+	}
+	// node types of the source that neither the registry nor any parsed tree knows
+	var missing []string
+	for name := range srcKinds {
+		found := false
+		for _, k := range astKinds {
+			if k.Name == name {
+				found = true
+			}
+		}
+		if !found {
+			missing = append(missing, name)
+		}
+	}
+	sort.Strings(missing)
+	// node types met in parsed trees are registered by now: probe the walker for every kind
+	table := probeWalkTable()
+	if err := os.MkdirAll(filepath.Join(outDir, "AnkoGen"), 0o755); err != nil {
+		return err
+	}
+	if err := os.WriteFile(filepath.Join(outDir, "AnkoGen", "GenWalk.v"), []byte(walkTableCoq(table)), 0o644); err != nil {
+		return err
+	}
+	tsx := walkTableSx(table)
+	for i, c := range cases {
+		c17Walk(c, parsedCases[i].stmt, parsedCases[i].ids, rnd)
 	}
 	var sb strings.Builder
 	for _, c := range cases {
